@@ -4,7 +4,7 @@
    SERVER side (Side = "server"): prompts / resources may be registered at any time; an
    initialize carrying a version of class v is answered with the negotiated version and the
    capability set derived from what is registered AT THAT TIME.
-     version classes: "v2025" "v2024" (supported)  "older" "future" "empty" "garbage" "long"
+     version classes: "v2025" "v2024" (supported)  "older" "future" "empty" "garbage" "long" "padded"
    CLIENT side (Side = "client"): Initialize ends in one of
      "ok" | "transport" (no answer) | "rpc" (JSON-RPC error) | "badresult" | "notify" (the
      initialized notification cannot be delivered);  operations and Close at any time.
@@ -14,10 +14,12 @@ EXTENDS Naturals, FiniteSets, TLC
 
 CONSTANTS Side
 
-VClasses == {"v2025", "v2024", "older", "future", "empty", "garbage", "long"}
+VClasses == {"v2025", "v2024", "older", "future", "empty", "garbage", "long", "padded"}   \* padded: a supported version with white space around it
 Supported == {"v2025", "v2024"}
 Latest == "v2025"
 Select(v) == IF v \in Supported THEN v ELSE Latest
+\* a server may read " 2024-11-05\n" as 2024-11-05 (lenient) or as an unknown version (strict): both answers are supported versions
+Selects(v) == IF v = "padded" THEN {"v2024", Latest} ELSE {Select(v)}
 
 Outcomes == {"ok", "transport", "rpc", "badresult", "notify"}
 Ops == {"ListTools", "CallTool", "ListPrompts", "GetPrompt", "ListResources", "ReadResource", "RootsChanged"}
@@ -37,7 +39,7 @@ Caps == {"tools"} \cup (IF hasPrompt THEN {"prompts"} ELSE {}) \cup (IF hasResou
 
 ServerInitialize(v, version, caps) ==
   /\ Side = "server"
-  /\ version = Select(v) /\ caps = Caps
+  /\ version \in Selects(v) /\ caps = Caps
   /\ UNCHANGED vars
 
 (* ------------------------------------------------------------ client *)
